@@ -4,11 +4,11 @@ EXTENDS Limits, Json, Sequences
 
 StateRec == [lim |-> lim, st |-> st, out |-> out, sem |-> sem, sub |-> sub, loopOn |-> loopOn, gone |-> gone,
              tgLive |-> tgLive, stop |-> stop, lclosed |-> lclosed, peersClosed |-> peersClosed, dead |-> dead,
-             runLive |-> runLive, conn |-> conn, th |-> th]
+             runLive |-> runLive, conn |-> conn, th |-> th, stop2 |-> stop2]
 
 \* Leg R: the harness decides the environment steps and lets the real code run until it is settled, so
 \* environment steps are exported only from states in which no internal step is enabled ("eager" graph).
-EnvOps == {"Arrive", "Disconnect", "CloseListener", "StopBegin", "ThAdd", "ThRefuse", "ThCheck", "AllowCheck", "Refuse", "Handshake"}
+EnvOps == {"Arrive", "Disconnect", "CloseListener", "StopBegin", "Stop2Begin", "ThAdd", "ThRefuse", "ThCheck", "AllowCheck", "Refuse", "Handshake"}
 IsEnvStep == \/ act'.op \in EnvOps
              \/ (act'.op = "Abort" /\ stop = "no")
              \/ (act'.op = "RemovePeer" /\ ~dead[act'.p])
@@ -21,7 +21,7 @@ InternalEnabledExcept(ops) ==
     \/ \E p \in Peers : G_AcquirePeer(p) \/ G_AcquireSubnet(p) \/ G_Spawn(p) \/ G_LoopExit(p)
     \/ \E p \in Peers, r \in RpcIds :
           G_TgAdd(p, r) \/ G_HandleDone(p, r) \/ G_ReleaseSubnet(p, r) \/ G_ReleasePeer(p, r) \/ G_Abandon(p, r)
-    \/ G_StopWait \/ G_StopReturn \/ G_ClosePeers \/ G_RunExit
+    \/ G_StopWait \/ G_StopReturn \/ G_Stop2Return \/ G_ClosePeers \/ G_RunExit
     \/ \E t \in Threads : G_ThCommit(t)
     \/ \E c \in Conns : G_RunPeer(c)
     \/ ("AddPeer" \notin ops /\ \E c \in Conns : G_AddPeer(c))
@@ -40,7 +40,7 @@ Emit ==
     PrintT("EDGE " \o ToJson([init |-> (act.op = "Init"), from |-> StateRec, act |-> act',
         to |-> [lim |-> lim', st |-> st', out |-> out', sem |-> sem', sub |-> sub', loopOn |-> loopOn', gone |-> gone',
                 tgLive |-> tgLive', stop |-> stop', lclosed |-> lclosed', peersClosed |-> peersClosed', dead |-> dead',
-                runLive |-> runLive', conn |-> conn', th |-> th']]))
+                runLive |-> runLive', conn |-> conn', th |-> th', stop2 |-> stop2']]))
 
 EagerEmit == Eager /\ Emit
 =============================================================================
